@@ -40,7 +40,8 @@ type stCase struct {
 	NBlocks int    `json:"nblocks"`
 	Cut     int    `json:"cut"`
 	Bytes   int    `json:"bytes"` // concrete byte offset (-1: derive from cut / nblocks)
-	How     string `json:"how"`   // "fail": the write fails (EFBIG); "kill": the process is killed (SIGXFSZ)
+	How     string `json:"how"`   // "fail": the write fails (EFBIG); "kill": the process is killed (SIGXFSZ); "cbfail": an update callback (Prometheus reload) fails before anything is written
+	Retry   bool   `json:"retry"` // the rejected update is sent again (same process, no fault this time)
 }
 type stStart struct {
 	OK      bool   `json:"ok"`
@@ -138,6 +139,8 @@ func cmdStoreChild(args []string) error {
 	limit := fs.Int("limit", -1, "RLIMIT_FSIZE in bytes (-1 none)")
 	tick := fs.Int64("tick", 0, "virtual clock")
 	kill := fs.Bool("kill", false, "let the kernel kill the process when the limit is hit (default disposition of SIGXFSZ)")
+	retry := fs.Bool("retry", false, "send the update again after it was rejected")
+	cbfail := fs.Bool("cbfail", false, "an update callback fails once")
 	_ = fs.Parse(args)
 	sidecar.VerifSetClock(vclockNow)
 	vclockSet(*tick)
@@ -147,8 +150,20 @@ func cmdStoreChild(args []string) error {
 		os.Exit(3)
 	}
 	vclockSet(*tick + 1)
+	var old syscall.Rlimit
+	_ = syscall.Getrlimit(syscall.RLIMIT_FSIZE, &old)
+	if *cbfail {
+		failed := false
+		m.AddUpdateCallbacks(func(map[string][]*target.Target) error {
+			if !failed {
+				failed = true
+				return fmt.Errorf("scripted: reload failed")
+			}
+			return nil
+		})
+	}
 	if *limit >= 0 {
-		lim := syscall.Rlimit{Cur: uint64(*limit), Max: uint64(*limit)}
+		lim := syscall.Rlimit{Cur: uint64(*limit), Max: old.Max}
 		if err := syscall.Setrlimit(syscall.RLIMIT_FSIZE, &lim); err != nil {
 			fmt.Println("RLIMITFAIL", err)
 			os.Exit(4)
@@ -168,6 +183,11 @@ func cmdStoreChild(args []string) error {
 		}
 	}
 	err := m.UpdateTargets(&shard.UpdateTargetsRequest{Targets: stAssignment(*b)})
+	if err != nil && *retry {
+		fmt.Println("REJECTED", err)
+		_ = syscall.Setrlimit(syscall.RLIMIT_FSIZE, &old)
+		err = m.UpdateTargets(&shard.UpdateTargetsRequest{Targets: stAssignment(*b)}) // a fresh request with the same content
+	}
 	if err != nil {
 		fmt.Println("NACK", err)
 		os.Exit(1)
@@ -279,9 +299,18 @@ func runStoreCase(self string, c *stCase) stObs {
 	if c.How == "kill" && limit >= 0 {
 		childArgs = append(childArgs, "-kill")
 	}
+	if c.How == "cbfail" {
+		childArgs = []string{"store-child", "-dir", sd, "-b", c.B, "-limit", "-1", "-tick", "5", "-cbfail"}
+	}
+	if c.Retry {
+		childArgs = append(childArgs, "-retry")
+	}
 	cmd = exec.Command(self, childArgs...)
 	outb, err := cmd.CombinedOutput()
-	o.Acked = err == nil && strings.Contains(string(outb), "ACK") && !strings.Contains(string(outb), "NACK")
+	o.Acked = err == nil && strings.Contains(string(outb), "\nACK") || strings.HasPrefix(string(outb), "ACK")
+	if strings.Contains(string(outb), "NACK") {
+		o.Acked = false
+	}
 	if err != nil {
 		o.ChildErr = strings.TrimSpace(string(outb))
 		if len(o.ChildErr) > 200 {
